@@ -17,7 +17,7 @@ from .model import Program, AnalysisError
 from .report import Ctx, finish
 
 
-def run_property(prop: str, repo: str, tier: str):
+def run_property(prop: str, repo: str, tier: str, overrides=None):
     """returns (ctx, module).  Raises AnalysisError."""
     try:
         mod = importlib.import_module(f"msdmlint.props.{prop.lower()}")
@@ -25,10 +25,21 @@ def run_property(prop: str, repo: str, tier: str):
         if e.name and e.name.endswith(prop.lower()):
             raise AnalysisError(f"no checker implemented for {prop} (fail-closed)")
         raise
-    program = Program(repo)
+    from .cfg import clear_cache
+    clear_cache()
+    program = Program(repo, overrides)
     ctx = Ctx(prop, program, tier)
     mod.run(ctx)
-    ctx.check_minima()
+    try:
+        ctx.check_minima()
+        ctx.minima_error = None
+    except AnalysisError as e:
+        # a definite violation is reported in preference to "anchor vanished"
+        from .report import load_known
+        known = {k["key"] for k in load_known().get("known", []) if k.get("property") == prop}
+        if not any(o.verdict == "VIOLATION" and o.key(prop) not in known for o in ctx.obs):
+            raise
+        ctx.minima_error = str(e)
     return ctx, mod
 
 
@@ -48,7 +59,9 @@ def main(argv=None) -> int:
         selftest = None
         if a.tier == "thorough" and not a.no_selftest:
             from . import selftest as st
-            base_viol = any(o.verdict == "VIOLATION" for o in ctx.obs)
+            from .report import load_known
+            known = {k["key"] for k in load_known().get("known", []) if k.get("property") == prop}
+            base_viol = any(o.verdict == "VIOLATION" and o.key(prop) not in known for o in ctx.obs)
             selftest = st.run_for(prop, a.repo, skip=base_viol)
         rc = finish(ctx, t0, seed, mod.EXPLANATION, mod.RULES, selftest)
         if selftest is not None:
